@@ -1,13 +1,52 @@
 #!/usr/bin/env python3
 """Translator (tie T): regenerate coq/gen/Constants.v from /repo's *working tree*.
 
-Extracts declarative data only (constants, tables, match-arm tables, byte sets, and the offset arithmetic of
-iterator.rs / builder.rs as expressions); control flow is
-hand-modelled and tied by the correspondence check.  Exits non-zero (message on stderr) when a
-pattern is not found: the tie is then reported broken by bin/check.
+Extracts declarative data (constants, tables, match-arm tables, byte sets), the offset arithmetic of iterator.rs / builder.rs,
+and -- table ANCHORS below -- "anchored expressions": integer expressions and boolean conditions of functions.rs, selector.rs
+and number.rs, translated Rust -> Gallina.  Control flow is hand-modelled and tied by the correspondence check; the model
+functions CALL the generated definitions, so when a source expression changes the model changes and the proofs over it
+(I32.v, OffsetTies.v, *Proofs.v, Props/*.v) are re-checked against what the code says now.
+Exits 2 (message on stderr) when a pattern is not found / found a different number of times / uses unsupported syntax:
+the tie is then reported broken by bin/check.  Never a guess.
 
 Usage: translate_consts.py [--repo /repo] [--out file]   (prints to stdout when --out is absent)
        translate_consts.py [--repo /repo] --selftest      (mutation self-test of the anchored expressions, see MUTATIONS)
+
+ANCHORED EXPRESSIONS (rows of ANCHORS; the row format is documented above the table).  Generated name -> source site:
+ G1 index arithmetic, Z-valued, each with NAME_SAFE : Prop = its range obligations in the machine type (proved in coq/I32.v,
+    exported by coq/Props/C20.v); _T = JSON-text (Value) branch, _B = JSONB byte branch of the same function
+   DBI_T_RESOLVE DBI_T_KEEP            functions.rs delete_by_index        `if index < 0 { len + index } else { index }`, `index >= 0 && index < len`
+   DBI_B_RESOLVE DBI_B_SKIP            functions.rs delete_jsonb_by_index  same resolve, `index < 0 || index >= len`
+   AI_NONARRAY_LEN AI_RESOLVE AI_CLAMP functions.rs array_insert_jsonb     `1`, `if pos < 0 { len + pos } else { pos }`, the clamp `.. as usize`
+   GBK_T_REJECT GBK_T_INDEX            functions.rs get_by_keypath (1st)   `*idx > length || length + *idx < 0`, `if *idx >= 0 { .. } else { (length + *idx) as usize }`
+   GBK_B_REJECT GBK_B_INDEX            functions.rs get_by_keypath (2nd)   the same two, byte branch
+   DKP_T_RESOLVE DKP_T_SKIP            functions.rs delete_value_array_by_keypath
+   DKP_B_RESOLVE DKP_B_SKIP            functions.rs delete_jsonb_array_by_keypath
+   CI_LAST CI_INRANGE                  selector.rs convert_index           `length + *idx as i64 - 1`, `idx >= 0 && idx < length`
+   CS_START_LAST CS_END_LAST CS_EMPTY CS_LO CS_HI   selector.rs convert_slice
+   SBI_NONEMPTY (require only)         selector.rs select_by_indices       `if ty != ARRAY_CONTAINER_TAG || length == 0 { return Ok(()); }`
+   + `require`: the declarations fixing the machine types (`index: i32`, `let len = .. as i32;`, `let length = length as i64;`)
+ G2 offsets / strides / loop bounds of the read-only byte walkers, N-valued (usize)
+   JBI_REJECT JBI_JOFF JBI_VOFF JBI_ADVANCE JBI_JSTEP        get_jentry_by_index
+   JBN_JOFF JBN_VOFF JBN_KOFF JBN_JSTEP1 JBN_JSTEP2           get_jentry_by_name
+   OKS_JOFF OKS_KOFF OKS_PREV_KOFF OKS_JSTEP                  object_keys
+   OEA_OFF0 OEA_WORDS OEA_STEP                                object_each
+   AVS_JOFF AVS_VOFF AVS_JSTEP                                array_values
+   CPR_*                                                      compare (the literal offsets 4 / 8 of the top-level function)
+   CMP_ARR_LSKIP .. CMP_OBJ_RSKIP                             compare_container (`&left[4..]`, `&right[4..]`)
+   CMA_JOFF CMA_LVOFF CMA_RVOFF CMA_LEN CMA_JSTEP             compare_array
+   CMO_LJOFF .. CMO_RKOFF CMO_LEN CMO_xJSTEP1/2               compare_object
+   CVC_ARR_SKIP CVC_OBJ_SKIP                                  scalar_convert_to_comparable (`&value[4..]`)
+   CVA_JOFF CVA_VOFF CVA_JSTEP / CVO_JOFF CVO_VOFF CVO_KOFF CVO_JSTEP1/2   array_ / object_convert_to_comparable
+   CTS_SC_JOFF CTS_SC_VOFF CTS_ARR_JOFF CTS_ARR_VOFF CTS_OBJ_JOFF CTS_OBJ_KOFF CTS_OBJ_VOFF CTS_OBJ_JSTEP   container_to_string
+   STS_JSTEP                                                  scalar_to_string
+   SOV_OFF SAV_OFF SBN_OFF SBI_OFF BSA_RESERVE BSA_JSTEP      selector.rs select_object_values / select_array_values / select_by_name /
+                                                              select_by_indices / build_scalar_array
+   (coq/OffsetTies.v proves that all of them and ITER_* / BLD_* describe one layout)
+ G3 width selection of Number::compact_encode
+   CE_INT_ZERO CE_INT_FITS1..3 (Z)  CE_UINT_ZERO CE_UINT_FITS1..3 (N)   the range tests `*v >= i8::MIN.into() && *v <= i8::MAX.into()` ...
+   CE_INT_W1..4 CE_UINT_W1..4 (nat)                                      bytes of the type written: `(*v as i8).to_be_bytes()` ..., `Int64(i64)`
+   (used by int_width / uint_width / compact_encode of coq/Num.v; NumProofs.v: round trip and shortest form)
 """
 import re, sys, argparse, os
 
